@@ -548,7 +548,104 @@ func famGraph(g *sgen, i int) J {
 		"steps": []interface{}{step("postOutbox", "POST", g.header(true), "/users/alice/outbox", v)}}
 }
 
-var families = map[string]family{"graph": famGraph, "authority": famAuthority, "create": famCreate, "history": famHistory, "ids": famIds, "missing": famMissing, "inbox": famInbox, "outbox": famOutbox, "send": famSend, "get": famGet, "gate": famGate}
+// C17: inbox forwarding — reply chains, owned and foreign collections, repeated deliveries
+func famForward(g *sgen, i int) J {
+	w := g.baseWorld()
+	w["fedCallbacks"] = J{"wrapped": []interface{}{}, "other": []interface{}{}, "onFollow": 0.0}
+	w["maxFwdDepth"] = float64(1 + g.r.intn(4))
+	switch g.r.intn(4) {
+	case 0:
+		w["filter"] = "none"
+	case 1:
+		w["filter"] = asListAlways([]interface{}{g.r.pick([]string{local("/col/1"), local("/col/2"), local("/ocol/1")})})
+	default:
+		w["filter"] = "all"
+	}
+	rem := jmap(w["remote"])
+	store := jmap(w["store"])
+	// a reply chain of 0..5 links; the link at `ownedAt` (if any) is owned by this server
+	n := g.r.intn(6)
+	ownedAt := -1
+	if g.r.chance(75) {
+		ownedAt = g.r.intn(n + 1)
+	}
+	link := func(k int) string {
+		if k == ownedAt {
+			return local(fmt.Sprintf("/notes/chain%d", k))
+		}
+		return remote(fmt.Sprintf("/notes/chain%d", k))
+	}
+	owned := jlist(w["owned"])
+	var next interface{}
+	for k := n; k >= 0; k-- {
+		id := link(k)
+		doc := J{"type": "Note", "id": id, "content": fmt.Sprintf("link %d", k)}
+		if next != nil {
+			doc[g.r.pick([]string{"inReplyTo", "inReplyTo", "tag", "object", "target"})] = next
+			if _, ok := doc["object"]; ok {
+				doc["type"] = "Like"
+				doc["actor"] = bob
+			}
+			if _, ok := doc["target"]; ok {
+				doc["type"] = "Add"
+				doc["actor"] = bob
+				doc["object"] = remote("/notes/8")
+			}
+		}
+		// a second reference, by IRI, to a link further down the chain (shared context / thread root)
+		if k+2 <= n && g.r.chance(30) {
+			for _, p := range []string{"tag", "target", "object", "inReplyTo"} {
+				if _, used := doc[p]; !used && (p == "tag" || p == "inReplyTo") {
+					doc[p] = link(k + 2 + g.r.intn(n-k-1))
+					break
+				}
+			}
+		}
+		if k == ownedAt {
+			owned = append(owned, id)
+			store[id] = doc
+		} else {
+			rem[id] = doc
+		}
+		if g.r.chance(35) && k != ownedAt {
+			next = deepCopy(doc) // embedded
+		} else {
+			next = id
+		}
+	}
+	w["owned"] = owned
+	a := J{"type": g.r.pick([]string{"Create", "Announce", "Like", "Listen"}), "id": remote(fmt.Sprintf("/activities/fw%d", g.r.intn(1000))), "actor": bob}
+	if a["type"] == "Create" {
+		a["object"] = J{"type": "Note", "id": remote("/notes/new"), "content": "reply", "inReplyTo": next}
+	} else {
+		a["object"] = next
+	}
+	pool := []string{local("/col/1"), local("/col/2"), local("/ocol/1"), remote("/col/r"), local("/notes/1"), alice, dave, carol, publicIRI}
+	for _, p := range []string{"to", "cc", "audience"} {
+		if g.r.chance(55) {
+			var xs []interface{}
+			for k, m := 0, 1+g.r.intn(3); k < m; k++ {
+				xs = append(xs, pool[g.r.intn(len(pool))])
+			}
+			a[p] = asList(xs)
+		}
+	}
+	var steps []interface{}
+	for k, m := 0, 1+g.r.intn(3); k < m; k++ {
+		path := "/users/alice/inbox"
+		if g.r.chance(30) {
+			path = "/users/dave/inbox"
+		}
+		st := step("postInbox", "POST", g.header(true), path, a)
+		if k < m-1 && g.r.chance(25) {
+			st["fault"] = float64(1 + g.r.intn(16))
+		}
+		steps = append(steps, st)
+	}
+	return J{"label": "forward", "wantGraph": true, "cfg": J{"kind": "both"}, "world": w, "steps": steps}
+}
+
+var families = map[string]family{"forward": famForward, "graph": famGraph, "authority": famAuthority, "create": famCreate, "history": famHistory, "ids": famIds, "missing": famMissing, "inbox": famInbox, "outbox": famOutbox, "send": famSend, "get": famGet, "gate": famGate}
 
 // args: <prop> <count> <maxFaultsPerScenario> fam1,fam2,...
 func genPub(r *rng, thorough bool, args []string, yield func(in J)) {
